@@ -58,7 +58,7 @@ func runC05(c *kit.Ctx) {
 			}
 			n := kit.CalleeName(call)
 			switch {
-			case strings.HasSuffix(n, "bigEndian).PutUint32"):
+			case strings.HasSuffix(n, "bigEndian).PutUint32"), strings.HasSuffix(n, "bigEndian).AppendUint32"):
 				put = call
 			case n == "google.golang.org/protobuf/encoding/protowire.AppendVarint":
 				// contributes SizeVarint(v)
@@ -94,8 +94,10 @@ func runC05(c *kit.Ctx) {
 			// the buffer starts with exactly 4 bytes for the prefix
 			okMk := false
 			if mk, ok := kit.Root(put.Call.Args[1]).(*ssa.MakeSlice); ok {
-				if k, ok := kit.ConstInt(mk.Len); ok && k == 4 {
-					okMk = true
+				if k, ok := kit.ConstInt(mk.Len); ok {
+					// PutUint32 into the 4 bytes the buffer starts with, or AppendUint32 to the empty buffer
+					isAppend := strings.HasSuffix(kit.CalleeName(put), "AppendUint32")
+					okMk = (k == 4 && !isAppend) || (k == 0 && isAppend)
 				}
 			}
 			c.Check(okMk, mp, "prefix-room", put.Pos(), "buffer starts as make([]byte, 4, ...): the prefix occupies bytes 0..3", "the frame buffer does not start with the 4 prefix bytes")
